@@ -55,6 +55,7 @@ type WorldCfg struct {
 	Nodes         map[uint64]NodeCfg `json:"nodes"`
 	Prof          Profile            `json:"profile"`
 	NoHeal        bool               `json:"no_heal,omitempty"`
+	Lease         bool               `json:"lease_based_reads,omitempty"` // nodes with CheckQuorum use ReadOnlyLeaseBased; the C11 oracles are off in such worlds
 }
 
 // Action is one scheduler step. Every random choice is recorded in it so that
